@@ -174,6 +174,9 @@ fn main() {
             let s = record_reader::record_source(&get("out", "work/source.ndjson"), seed, get("n", "200").parse().unwrap(), get("max-len", "200").parse().unwrap());
             println!("SUMMARY {}", serde_json::to_string(&s).unwrap());
         }
+        "any-probe" => {
+            println!("{:?}", family::de_any(&get("xml", "<a/>")));
+        }
         "reader-rerun" => {
             let still = replay_reader::rerun(&get("file", ""));
             println!("{}", if still { "STILL-FAILS" } else { "PASSES-NOW" });
